@@ -1112,8 +1112,61 @@ def virtual_and_key_decoding_stream(ctx, res):
             elif err.ref_path != want:
                 res.violate("C15:wrong-path:dict-key", "the rejection of a dict entry whose key cannot be decoded does not name the entry's key in the path", dict(case, ref_path=err.ref_path))
 
+def falsy_parent_stream(ctx, res):
+    """A config-type SUBCLASS may define `__len__` / `__bool__` (a pool has as many entries as it has members): a configuration that
+    tests false is still the parent of what is below it — rejections below it name the full path, whether the pool is empty or not"""
+    import cincoconfig as cc
+    member = cc.Schema()
+    member.host = cc.StringField(default="h")
+    member.port = cc.PortField(default=1)
+    pool_schema = cc.Schema()
+    pool_schema.members = cc.ListField(member, default=lambda: [])
+    pool_schema.opts.retries = cc.IntField(default=1)
+    pool_schema.opts.deep.level = cc.IntField(default=1)
+    pool_schema.size = cc.IntField(default=0)
+
+    class Pool(cc.ConfigType):
+        __schema__ = pool_schema
+
+        def __len__(self):
+            return len(self.members)
+
+    class Flag(cc.ConfigType):
+        __schema__ = pool_schema
+
+        def __bool__(self):
+            return bool(self.size)
+    for cls in (Pool, Flag):
+        s = cc.Schema()
+        s.lb.pool = cls
+        s.lb.pools = cc.ListField(cls, default=lambda: [])
+        for label, do, want in (("attribute", lambda c: setattr(c.lb.pool.opts, "retries", "x"), "lb.pool.opts.retries"),
+                                ("attribute two levels", lambda c: setattr(c.lb.pool.opts.deep, "level", "x"), "lb.pool.opts.deep.level"),
+                                ("dotted", lambda c: c.__setitem__("lb.pool.opts.retries", "x"), "lb.pool.opts.retries"),
+                                ("load_tree", lambda c: c.load_tree({"lb": {"pool": {"opts": {"retries": "x"}}}}), "lb.pool.opts.retries"),
+                                ("load_tree first member", lambda c: c.load_tree({"lb": {"pool": {"members": [{"port": "x"}]}}}), "lb.pool.members[0].port"),
+                                ("append to empty", lambda c: c.lb.pool.members.append({"port": 70000}), "lb.pool.members[0].port"),
+                                ("item of a list of pools", lambda c: (c.lb.pools.append({}), setattr(c.lb.pools[0].opts, "retries", "x")), "lb.pools[0].opts.retries"),
+                                ("non-empty pool", lambda c: (c.lb.pool.members.append({}), setattr(c.lb.pool, "size", 3), setattr(c.lb.pool.opts, "retries", "x")), "lb.pool.opts.retries")):
+            cfg = s()
+            try:
+                do(cfg)
+                err = None
+            except Exception as e:  # noqa
+                err = e
+            case = {"stream": "falsy-parent", "class": cls.__name__, "route": label, "expected": want}
+            res.case(stable(case), kind="falsy-parent")
+            if err is None:
+                res.violate("C15:position:accepted", "an invalid value below a configuration that tests false was accepted", case)
+            elif not isinstance(err, cc.ValidationError):
+                res.violate("C15:not-validation-error", "a rejection below a configuration that tests false surfaced as %s" % type(err).__name__, case)
+            elif err.ref_path != want:
+                res.violate("C15:wrong-path:falsy-parent", "a rejection below a configuration that tests false (a config type defining __len__ / __bool__) does not name the full path",
+                            dict(case, ref_path=err.ref_path))
+
 def run(ctx, n_quick=250, n_thorough=8000):
     res = Result()
+    guard(res, "C15", falsy_parent_stream, ctx, res)
     guard(res, "C15", virtual_and_key_decoding_stream, ctx, res)
     guard(res, "C15", lambda: P.run_stream(ctx, res, "C15", ctx.n(n_quick, n_thorough), oracle, gen_ops=gen_ops, ops_len=(8, 20)))
     guard(res, "C15", doc_stream, ctx, res, ctx.n(40, 1500))
